@@ -471,3 +471,149 @@ func countOnPathsFrom(fn *ssa.Function, to ssa.Instruction, pred func(ssa.Instru
 	}
 	return min, max
 }
+
+func init() {
+	register("C31", "", ruleC31ef)
+	register("C37", "", ruleC37f)
+}
+
+// ruleC31ef: (MP-C31e) a failed prepare leaves the standby slot untouched: no store into namespaces[…]/users[…] lies on
+// a path to an error return of ReloadNamespacePrepare; (MP-C31f) prepare and delete build the next generation from the
+// *committed* generation: the manager handed to ShallowCopyNamespaceManager / CloneUserManager is slot[current], with
+// current the first result of switchIndex.Get().
+func ruleC31ef(c *Ctx, r *Report) {
+	prep := c.Method(serverRel, "Manager", "ReloadNamespacePrepare")
+	del := c.Method(serverRel, "Manager", "DeleteNamespace")
+	nsF := c.Field(serverRel, "Manager", "namespaces")
+	usersF := c.Field(serverRel, "Manager", "users")
+	switchF := c.Field(serverRel, "Manager", "switchIndex")
+	if prep == nil || del == nil || nsF == nil || usersF == nil || switchF == nil {
+		r.undecided("MP-C31e", "(*proxy/server.Manager)", "anchor", "-", "anchors not found")
+		return
+	}
+	r.floor("MP-C31e", 1)
+	r.floor("MP-C31f", 4)
+	isSlotStore := func(in ssa.Instruction) bool {
+		st, ok := in.(*ssa.Store)
+		if !ok {
+			return false
+		}
+		ia, ok := st.Addr.(*ssa.IndexAddr)
+		if !ok {
+			return false
+		}
+		f := fieldOfAddr(ia.X)
+		return f == nsF || f == usersF
+	}
+	pn := c.FuncName(prep)
+	n := 0
+	for _, ret := range returnsOf(prep) {
+		isNil, known := returnsNilError(ret)
+		if known && isNil {
+			continue
+		}
+		n++
+		cons := fmt.Sprintf("prepare-failure#%d:standby-slot-untouched", n)
+		if _, max := countOnPaths(prep, ret, isSlotStore); max == 0 {
+			r.ok("MP-C31e", pn, cons, c.Pos(exitPos(ret)), "the standby slot is written only after the new configuration was built successfully")
+		} else {
+			r.viol("MP-C31e", pn, cons, c.Pos(exitPos(ret)), "a prepare can fail after it already overwrote the standby slot: an earlier, still pending prepare is silently replaced and its commit activates something else")
+		}
+	}
+	if n == 0 {
+		r.undecided("MP-C31e", pn, "prepare-failure", c.Pos(prep.Pos()), "no failing return")
+	}
+	// f: base generation is slot[current]
+	for _, fn := range []*ssa.Function{prep, del} {
+		name := c.FuncName(fn)
+		isCurrent := func(idx ssa.Value) bool {
+			ex, ok := stripValue(resolveLoad(idx)).(*ssa.Extract)
+			if !ok || ex.Index != 0 {
+				return false
+			}
+			call, ok := ex.Tuple.(*ssa.Call)
+			if !ok || len(call.Call.Args) == 0 || fieldOfAddr(call.Call.Args[0]) != switchF {
+				return false
+			}
+			k := call.Call.StaticCallee()
+			return k != nil && k.Name() == "Get"
+		}
+		k := 0
+		allInstrs(fn, func(in ssa.Instruction) {
+			call, ok := in.(*ssa.Call)
+			if !ok {
+				return
+			}
+			f := call.Call.StaticCallee()
+			if f == nil || (f.Name() != "ShallowCopyNamespaceManager" && f.Name() != "CloneUserManager") || len(call.Call.Args) != 1 {
+				return
+			}
+			k++
+			okAll := true
+			for _, l := range phiLeaves(call.Call.Args[0]) {
+				ld, isLd := l.(*ssa.UnOp)
+				if !isLd {
+					okAll = false
+					continue
+				}
+				ia, isIA := ld.X.(*ssa.IndexAddr)
+				if !isIA || (fieldOfAddr(ia.X) != nsF && fieldOfAddr(ia.X) != usersF) || !isCurrent(ia.Index) {
+					okAll = false
+				}
+			}
+			cons := "base-of:" + f.Name()
+			if okAll {
+				r.ok("MP-C31f", name, cons, c.Pos(call.Pos()), "the next generation is derived from the committed generation slot[current]")
+			} else {
+				r.viol("MP-C31f", name, cons, c.Pos(call.Pos()), "the next generation can be derived from something other than the committed generation (e.g. the standby slot of a pending prepare): a commit then activates another namespace's uncommitted change")
+			}
+		})
+		if k == 0 {
+			r.undecided("MP-C31f", name, "base-generation", c.Pos(fn.Pos()), "no copy of the current generation found")
+		}
+	}
+}
+
+// ruleC37f: removal is not optional: (*TimeWheel).Remove hands the removal to the wheel with a blocking send on every
+// path that accepts the key (a non-blocking select would drop it when the pipeline is full and the old registration
+// would still fire).
+func ruleC37f(c *Ctx, r *Report) {
+	const rule = "MP-C37f"
+	r.floor(rule, 1)
+	rm := c.Method("util", "TimeWheel", "Remove")
+	pipeF := c.Field("util", "TimeWheel", "pipelineC")
+	if rm == nil || pipeF == nil {
+		r.undecided(rule, "(*util.TimeWheel).Remove", "anchor", "-", "not found")
+		return
+	}
+	name := c.FuncName(rm)
+	hasSelect := false
+	allInstrs(rm, func(in ssa.Instruction) {
+		if sel, ok := in.(*ssa.Select); ok {
+			for _, st := range sel.States {
+				if loadedField(st.Chan) == pipeF {
+					hasSelect = true
+				}
+			}
+		}
+	})
+	exits := searchExits(rm, nil, rm.Blocks[0], SearchOpts{
+		Stop: func(in ssa.Instruction) bool {
+			s, ok := in.(*ssa.Send)
+			return ok && loadedField(s.Chan) == pipeF
+		},
+		ExitOK: func(in ssa.Instruction) bool {
+			ret, ok := in.(*ssa.Return)
+			if !ok {
+				return true
+			}
+			isNil, known := returnsNilError(ret)
+			return known && !isNil
+		},
+	})
+	if !hasSelect && len(exits) == 0 {
+		r.ok(rule, name, "blocking-hand-over", c.Pos(rm.Pos()), "every accepted removal is sent to the wheel with a blocking send")
+	} else {
+		r.viol(rule, name, "blocking-hand-over", c.Pos(rm.Pos()), "a removal can be dropped (non-blocking send or a path without the send): the removed session is still closed by its old registration")
+	}
+}
